@@ -55,7 +55,9 @@ def gen(seed, tier):
     fault = None
     r = rng.random()
     if r < 0.3:
-        fault = {"kind": "config", "what": rng.choice(CONFIG_FAULTS), "pos": rng.randrange(n), "cut": rng.random()}
+        fault = {"kind": "config", "what": rng.choice(CONFIG_FAULTS + ["ctor-raises", "ctor-raises"]), "pos": rng.randrange(n), "cut": rng.random()}
+        # what a failing constructor raises is up to the class: lookups, type errors, missing files ...
+        fault["ctor_exc"] = rng.choice(["ValueError", "KeyError", "KeyError", "KeyError", "TypeError", "TypeError", "AttributeError", "AttributeError", "IndexError", "LookupError", "OSError", "RuntimeError", "AssertionError", "ImportError", "NotImplementedError", "StopIteration"])  # the kinds generic handlers like to catch come more often
         if fmt == "py" and fault["what"] in ("unknown-section", "missing-pipeline", "unknown-tag", "python-tag", "unknown-type", "truncated", "empty-file"):
             fault["what"] = rng.choice(["ctor-raises", "py-raises", "py-syntax", "unknown-extension", "missing-file"])
         if fmt == "yaml" and fault["what"] in ("py-raises", "py-syntax"):
@@ -93,7 +95,7 @@ def _kwargs(e, fault_here):
         if e.get("park"):
             kw["park"] = True
         if fault_here and fault_here["kind"] == "config" and fault_here["what"] == "ctor-raises":
-            kw["fail_init"] = True
+            kw["fail_init"] = fault_here.get("ctor_exc", "ValueError")
         if fault_here and fault_here["kind"] == "service":
             kw["fail_after"] = fault_here["after"]
             kw["fail_kind"] = fault_here["fail_kind"]
@@ -376,6 +378,18 @@ def check(h, reason):
         if not expect_fail:
             expect_fail = False
     first_err = next((e for e in ev if e["kind"] == "error-log" and e["logger"].startswith("cobald.runtime")), None)
+    if expect_fail and sig is not None and sig["seq"] < ended["seq"] and fkind in ("config", "service") and not truncated:
+        # when the fault struck is known from the scenario itself, whether or not anything was logged: a
+        # daemon that is still up seconds later "stays up idle" and merely got stopped by the interrupt
+        if fkind == "service":
+            struck = next((e for e in ev if e["kind"] in ("raise", "return") and e.get("pid") == elems[fault["pos"]]["name"]), None)
+        elif fault["what"] == "ctor-raises":
+            struck = next((e for e in ev if e["kind"] == "constructed" and e.get("pid") == elems[fault["pos"]]["name"]), None)
+        else:
+            struck = ev[0] if ev else None  # the configuration is loaded right at start-up
+        if struck is not None and sig["t"] - struck["t"] > 3.0:
+            V("C13/up-and-idle/%s/%s" % (fkind, what), "fault %s/%s struck at t=%.2f: the daemon was still up %.2fs later when the SIGINT stopped it (errors logged until then: %d)" % (fkind, what, struck["t"], sig["t"] - struck["t"], sum(1 for e in errors if e["seq"] < sig["seq"])))
+            return v, shape, True
     if expect_fail and sig is not None and sig["seq"] < (first_err["seq"] if first_err else 10**12) and sig["seq"] < ended["seq"]:
         # the interrupt arrived before the failure had been noticed by the runtime: two triggers at once,
         # either outcome (graceful exit 0, or the failure's non-zero status) is legitimate
